@@ -64,7 +64,7 @@ type UnitCfg struct {
 	// not overlayable) module cache and wired in through a scratch go.mod with
 	// replace directives, so that their files can be overlaid (renamed stubs).
 	ReplaceMods []string `json:"replace_mods"`
-	Solver   string    `json:"solver"`   // z3 (default) | cvc5 | cvc5-int
+	Solver   string    `json:"solver"`   // z3 (default) | z3-new | cvc5 | cvc5-int
 	Fallback string    `json:"fallback"` // solver for assertion queries the primary answers unknown
 }
 
@@ -636,6 +636,9 @@ func (r *runner) run(out, onlyEntry string) int {
 func crossSolvers(primary string) []string {
 	if primary == "cvc5-int" {
 		return []string{"z3-new"}
+	}
+	if primary == "z3-new" {
+		return []string{"z3", "cvc5"}
 	}
 	return []string{"z3-new", "cvc5"}
 }
